@@ -22,13 +22,17 @@ pub enum Error {
     Priors(String),
     #[error("algorithm not converged {0}")]
     NotConverged(String),
-    // ShapeError doesn't implement serde traits, and deriving them remotely on a complex error
-    // type isn't really feasible, so we skip this variant.
-    #[cfg_attr(feature = "serde", serde(skip))]
-    #[error("invalid ndarray shape {0}")]
-    NdShape(#[from] ShapeError),
     #[error("not enough samples")]
     NotEnoughSamples,
     #[error("The number of samples do not match: {0} - {1}")]
     MismatchedShapes(usize, usize),
+    // ShapeError doesn't implement serde traits, and deriving them remotely on a complex error
+    // type isn't really feasible, so we skip this variant.
+    //
+    // The skipped variant has to stay the last one: the derived serializer writes the declaration
+    // index of a variant while the derived deserializer only numbers the variants it knows, so every
+    // variant declared after a skipped one cannot be read back from index-based formats (bincode).
+    #[cfg_attr(feature = "serde", serde(skip))]
+    #[error("invalid ndarray shape {0}")]
+    NdShape(#[from] ShapeError),
 }
